@@ -63,7 +63,7 @@ fn special_slot(max_n: usize) -> Option<usize> {
         v
     });
     if n == 3 {
-        Some(crate::util::WORKER_IX.with(|w| w.get()) % 5)
+        Some(crate::util::WORKER_IX.with(|w| w.get()) % 6)
     } else {
         None
     }
@@ -102,6 +102,17 @@ pub fn gen_case(d: &mut Driver, rep: &mut Report, rng: &mut Rng, max_n: usize) -
                 es.reverse();
             }
             rep.count("tables_with_long_run_values_snappy");
+            return build_case(d, rep, &cfg, &es);
+        }
+        // snappy with ONE data block beyond 1 MiB (incompressible bytes, so that the model's format-level decoder only
+        // copies literals): size-dependent decisions of the writer (compress or not, label, checksum) show only here
+        Some(5) => {
+            let mut cfg = gen_wcfg(rng);
+            cfg.snappy = true;
+            cfg.cmp = CmpKind::Bytewise;
+            cfg.block_size = 4096;
+            let es: Vec<(Vec<u8>, Vec<u8>)> = vec![(b"s0".to_vec(), rng.any_bytes(9)), (b"s1".to_vec(), rng.any_bytes(1_200_000)), (b"s2".to_vec(), rng.any_bytes(3))];
+            rep.count("tables_with_a_snappy_block_over_1mib");
             return build_case(d, rep, &cfg, &es);
         }
         // ONE data block beyond 64 KiB: restart offsets that do not fit 16 bits
